@@ -414,16 +414,18 @@ func (bsc *BlipSyncContext) handleChangesResponse(ctx context.Context, sender *b
 		}
 	}
 
-	if collectionCtx.sgr2PushAlreadyKnownSeqsCallback != nil {
-		collectionCtx.sgr2PushAlreadyKnownSeqsCallback(alreadyKnownSeqs...)
+	// Announce the sent sequences as expected before reporting the already known ones: a checkpoint taken between the
+	// two notifications must not move past a sent revision that hasn't been acknowledged yet.
+	if revSendCount > 0 && collectionCtx.sgr2PushAddExpectedSeqsCallback != nil {
+		collectionCtx.sgr2PushAddExpectedSeqsCallback(sentSeqs...)
 	}
 	verifPoint("push-changes-response-between-known-and-expected")
 
-	if revSendCount > 0 {
-		if collectionCtx.sgr2PushAddExpectedSeqsCallback != nil {
-			collectionCtx.sgr2PushAddExpectedSeqsCallback(sentSeqs...)
-		}
+	if collectionCtx.sgr2PushAlreadyKnownSeqsCallback != nil {
+		collectionCtx.sgr2PushAlreadyKnownSeqsCallback(alreadyKnownSeqs...)
+	}
 
+	if revSendCount > 0 {
 		bsc.replicationStats.HandleChangesSendRevCount.Add(revSendCount)
 		bsc.replicationStats.HandleChangesSendRevLatency.Add(revSendTimeLatency)
 		bsc.replicationStats.HandleChangesSendRevTime.Add(time.Since(changesResponseReceived).Nanoseconds())
